@@ -43,6 +43,9 @@ def _ser(obj) -> str:
             s += "|values-exc|" + type(ex).__name__
     if hasattr(obj, "width"):
         s += f"|w{obj.width}"
+    # the coordinates a cell / row / column taken from a table carries
+    if type(obj).__name__ in ("Cell", "Row", "Column"):
+        s += f"|at{getattr(obj, 'x', None)},{getattr(obj, 'y', None)}"
     return s
 
 
@@ -54,6 +57,15 @@ def _make(kind: str, rng, tmp: Path):
         p.set_span("T1", regex="text")
         p.set_link("http://example.org", regex="tab")
         return p
+    if kind in ("cell", "row", "column") and rng.random() < 0.6:
+        # taken from a table: the object knows where it comes from (first row / first column included)
+        t = tl.build_table({"rows": [[1, 2, 0, 3], [2, 2, 2, 2], [0, 1, 9, 9]], "cols": [0, 1, 1, 0]}, rng.choice(("max", "none")), rng)
+        x, y = rng.choice((0, 0, 1, 3)), rng.choice((0, 0, 1, 2))
+        if kind == "cell":
+            return t.get_cell((x, y))
+        if kind == "row":
+            return t.get_row(y)
+        return t.get_column(x)
     if kind == "cell":
         return Cell(rng.choice([1, "txt", 2.5, True]), style="ce1", repeated=rng.choice([None, 3]))
     if kind == "row":
